@@ -278,6 +278,10 @@ func runC02(c *Ctx) {
 			fmt.Sprintf("operand roles do not match: receiver adds %d offered/%d known terms, argument adds %d offered/%d known terms (swapped operands invert the comparison)", rm, rk, am, ak), c.at(cmps[0]))
 	})
 
+	c.rule("C02.O2", "a valid batch that extends the tip is adopted after an abandoned one: headers left on the in-memory list by a batch that was dropped half-way are phantom work that the next, valid extension of the stored tip has to beat in a reorganisation it never asked for; "+dirtyListTypestateDoc, func() { c.dirtyListTypestate() })
+	c.rule("C02.O3", "an accepted reorganisation is carried out: the rollback under it must not fail half-way on a synced client (both stores share the hash index: with the block header rolled back first, the filter store cannot look its own tip up any more and the rollback returns an error after headers were already removed); "+filterRollbackFirstDoc, func() { c.filterRollbackFirst() })
+	c.rule("C02.V7", offeredWorkDoc, func() { c.offeredWorkFromFork() })
+
 	c.rule("C02.G3", "the branch offered for a reorganisation is internally linked: the reorg path validates and weighs every remaining header of the message but never compares PrevBlock itself; it relies on this pre-check: "+headersLinkedDoc, func() { c.headersLinked() })
 
 	c.rule("C02.V3", knownWorkDoc, func() { c.knownWorkLoop() })
@@ -708,4 +712,76 @@ func (c *Ctx) rollbackReachesTarget() {
 		return
 	}
 	c.nilReturnsGuarded(fn, g, 1)
+}
+
+const offeredWorkDoc = "the work of the offered branch is the work of the headers from the fork point on: every term added to the argument of the work comparison is CalcWork of an element of the very sub-slice of msg.Headers (msg.Headers[i:], i the position of the first header that does not connect to the tip) that the branch validation loop runs over; summed over the whole message, headers the client already has are weighed on the offered side only (the known chain is weighed from the fork point up), and a lighter fork padded with known headers - what an honest node sends when the fork point is not among the locator hashes - displaces the heavier chain"
+
+// offeredWorkFromFork: see offeredWorkDoc.
+func (c *Ctx) offeredWorkFromFork() {
+	fn := c.fn(fnHandleHeaders)
+	msgHeaders := c.field(pWire, "MsgHeaders", "Headers")
+	cmpM := c.method("math/big", "Int", "Cmp")
+	addM := c.method("math/big", "Int", "Add")
+	calc := c.funcObj(pBlockchain, "CalcWork")
+	sanity := c.method("neutrino", "blockManager", "checkHeaderSanity")
+	cmps := find(fn, callTo(cmpM))
+	construct := c.nm(fn) + " | offered work is summed over msg.Headers[i:]"
+	if len(cmps) != 1 {
+		c.fail(construct, c.P.Pos(fn.Pos()), "expected exactly one Cmp")
+		return
+	}
+	arg := ir.CallOf(cmps[0]).Args[1]
+	// the sub-slice an element is taken from
+	sliceOf := func(v ssa.Value) ssa.Value {
+		var s ssa.Value
+		ir.DerivesFrom(v, func(x ssa.Value) bool {
+			if ia, ok := x.(*ssa.IndexAddr); ok && s == nil {
+				s = ir.Strip(ia.X)
+				return true
+			}
+			return false
+		})
+		return s
+	}
+	fromFork := func(s ssa.Value) (low ssa.Value, ok bool) {
+		sl, isSl := s.(*ssa.Slice)
+		if !isSl || sl.Low == nil || sl.High != nil || !loadsField(msgHeaders)(sl.X) {
+			return nil, false
+		}
+		return ir.Strip(sl.Low), true
+	}
+	// the validation loop's sub-slice
+	var forkLow ssa.Value
+	for _, sn := range find(fn, withArg(callTo(sanity), 2, isConstBool(true))) {
+		if low, ok := fromFork(sliceOf(ir.CallOf(sn).Args[1])); ok {
+			forkLow = low
+		}
+	}
+	if forkLow == nil {
+		c.fail(construct, c.P.Pos(fn.Pos()), "the branch validation loop (checkHeaderSanity(.., true, ..)) does not run over a sub-slice msg.Headers[i:]")
+		return
+	}
+	var bad []string
+	var sites []ssa.Instruction
+	for _, in := range find(fn, callTo(addM)) {
+		a := ir.CallOf(in).Args
+		if a[0] != arg {
+			continue
+		}
+		sites = append(sites, in)
+		wc, ok := ir.Strip(a[2]).(*ssa.Call)
+		if !ok || !callTo(calc)(wc) {
+			bad = append(bad, "the term added at "+c.at(in)+" is not a CalcWork value")
+			continue
+		}
+		low, ok := fromFork(sliceOf(wc.Call.Args[0]))
+		switch {
+		case !ok:
+			bad = append(bad, "the header weighed at "+c.at(in)+" is not an element of a sub-slice msg.Headers[i:]")
+		case low != forkLow:
+			bad = append(bad, "the header weighed at "+c.at(in)+" is taken from another sub-slice of msg.Headers than the validated branch")
+		}
+	}
+	sort.Strings(bad)
+	c.verdict(len(bad) == 0 && len(sites) >= 1, construct, c.at(cmps[0]), fmt.Sprintf("%d term(s), each CalcWork of an element of the validated sub-slice", len(sites)), join(bad)+" (or no term is added to the offered work)", c.ats(sites)...)
 }
